@@ -39,8 +39,14 @@ func (r *Response) Result() (any, error) {
 	}
 }
 
-func (r *Response) Send(_ *PID, msg any, _ *PID) {
-	r.result <- msg
+func (r *Response) Send(_ *PID, msg any, sender *PID) {
+	// Only the first reply can be the result. A further reply must not block the
+	// replying actor on the full channel: it is undeliverable.
+	select {
+	case r.result <- msg:
+	default:
+		r.engine.BroadcastEvent(DeadLetterEvent{Target: r.pid, Message: msg, Sender: sender})
+	}
 }
 
 func (r *Response) PID() *PID         { return r.pid }
